@@ -352,7 +352,8 @@ End AttemptGood.
 Lemma sr_attempt_good fuel : forall s k d, good s (sr_attempt fuel s k d).
 Proof.
   induction fuel as [|fuel IH]; intros s k d; cbn [sr_attempt].
-  - apply sr_unwind_good.
+  - pose proof (exec_finish_good s k (RRaise XCancelled)) as [H1 H2]. destruct (exec_finish s k (RRaise XCancelled)) as [s' a].
+    split; cbn [fst snd] in *; auto. intros k' t [H|H]. discriminate. eauto.
   - apply sr_attempt_body_good. exact IH.
 Qed.
 
@@ -368,7 +369,8 @@ Proof.
     eapply evolves_trans. 2: apply close_transport_evolves. apply same4_evolves. same4_tac. }
   destruct (t_pc tk).
   - apply HA.
-  - eapply good_trans. 2: apply sr_locked_good; auto. apply same4_evolves. same4_tac.
+  - destruct (negb (woken s w)). { split. apply evolves_refl. apply acts_ok_nil. }
+    eapply good_trans. 2: apply sr_locked_good; auto. apply same4_evolves. same4_tac.
   - destruct (t_cancelled tk).
     + eapply good_trans. 2: apply sr_exception_good; auto.
       eapply evolves_trans. apply same4_evolves, upd_task_same. apply same4_evolves, tr_close_same.
@@ -381,6 +383,7 @@ Proof.
     + apply sr_exception_good; auto.
     + apply sr_exception_good; auto.
   - (* close() inside execute *)
+    destruct (negb (woken s w)). { split. apply evolves_refl. apply acts_ok_nil. }
     cbv zeta. set (o := outcome_of s r).
     assert (Ho : forall t, o = OResp t -> exists f, fstat_of s f = FResult t).
     { intros t. unfold o, outcome_of. destruct r as [f|e].
@@ -402,7 +405,8 @@ Proof.
         eapply evolves_trans. 2: apply close_transport_evolves. apply same4_evolves. same4_tac.
       * split; cbn [fst snd]. 2: apply acts_ok_nil.
         eapply evolves_trans. 2: apply same4_evolves, set_pc_same. apply same4_evolves. same4_tac.
-  - split; cbn [fst snd]. apply (Hcl s w ALoopExc); auto. intros k' t [H|[]]; discriminate.
+  - destruct (negb (woken s w)). { split. apply evolves_refl. apply acts_ok_nil. }
+    split; cbn [fst snd]. apply (Hcl s w ALoopExc); auto. intros k' t [H|[]]; discriminate.
   - split. apply evolves_refl. apply acts_ok_nil.
 Qed.
 
@@ -493,7 +497,8 @@ Proof.
   - destruct (get_task k (s_tasks s)) as [tk|]. 2: { split. apply evolves_refl. apply acts_ok_nil. }
     destruct (t_wf tk). 2: { split. apply evolves_refl. apply acts_ok_nil. }
     destruct (t_pc tk); try (split; [apply evolves_refl | apply acts_ok_nil]);
-      (split; cbn [fst snd]; [|apply acts_ok_nil]; eapply evolves_trans; [apply same4_evolves, upd_task_same | apply same4_evolves, push_same]).
+      (cbv zeta; split; cbn [fst snd]; [|apply acts_ok_nil]; destruct (has_task k (s_ready s));
+       [apply same4_evolves, upd_task_same | eapply evolves_trans; [apply same4_evolves, upd_task_same | apply same4_evolves, push_same]]).
 Qed.
 
 Lemma step_good s e r : step s e = Some r -> good s r.
